@@ -52,56 +52,40 @@ Qed.
 Lemma pow256_pow2 z : 0 <= z -> 256 ^ z = 2 ^ (8 * z).
 Proof. intros H. rewrite Z.pow_mul_r by lia. reflexivity. Qed.
 
-Lemma d2R_shape d : in64 d -> d_exp d <> 2047 -> (d_exp d <> 0 \/ d_frac d <> 0) ->
+(* the part of asn_double2REAL after the scratch pad is set up, on any pad
+   h :: T (7 bytes) whose kept bytes are init ++ [mval]: M is the integer on the
+   pad, ex0 the exponent the C starts from *)
+Lemma d2R_core bm ex0 h T init mval zs M :
+  bytes_ok (h :: T) -> zlen T = 6 -> be_val (h :: T) = M ->
+  h :: T = init ++ mval :: zs -> zeros zs -> mval <> 0 ->
+  -2000 <= ex0 <= 2000 ->
   exists eb mant t,
-    double2REAL d = (128 + 64 * d_sign d + (zlen eb - 1)) :: eb ++ mant /\
+    (if negb (mval =? 0) && (mval mod 2 =? 0)
+     then exp_octets bm (ex0 - (8 * (zlen init + 1) - 4) + shift_count mval)
+            ++ skip_lead_zeros (shr_bytes (shift_count mval) 0 (init ++ [mval]))
+     else exp_octets bm (ex0 - (8 * (zlen init + 1) - 4)) ++ skip_lead_zeros (init ++ [mval]))
+    = (bm + (zlen eb - 1)) :: eb ++ mant /\
     1 <= zlen eb <= 3 /\ bytes_ok eb /\ minimal_twos eb = true /\
-    twos_value eb = ilogb d - 52 + t /\
+    twos_value eb = ex0 - 52 + t /\
     bytes_ok mant /\ mant <> [] /\ 0 <= t /\
-    be_val mant * 2 ^ t = two52 + d_frac d /\ be_val mant mod 2 = 1 /\
-    (hd 0 mant <> 0 <-> t mod 8 <= 4).
+    be_val mant * 2 ^ t = M /\ be_val mant mod 2 = 1 /\ hd 0 mant <> 0.
 Proof.
-  intros Hd He Hnz.
-  pose proof (ilogb_nonspecial d Hd He Hnz) as Hil.
-  unfold double2REAL. cbv zeta.
-  replace ((ilogb d <=? - INT_MAX) || (ilogb d =? INT_MAX)) with false by (unfold INT_MAX; lia).
-  rewrite (be_bytes_S 6 d). cbn [set_hidden_bit].
-  set (b0 := (d / 256 ^ Z.of_nat 6) mod 256).
-  set (T := be_bytes 6 d).
-  set (h := 16 + b0 mod 16).
-  assert (Hb0 : 0 <= b0 < 256) by (apply Z.mod_pos_bound; lia).
-  assert (Hh : 0 <= h < 256 /\ h <> 0) by (unfold h; Z.div_mod_to_equations; lia).
-  assert (HT : bytes_ok T) by apply be_bytes_ok.
-  assert (HlenT : zlen T = 6) by apply (zlen_be_bytes 6 d).
-  assert (HM : be_val (h :: T) = two52 + d_frac d).
-  { cbn [be_val]. rewrite HlenT. unfold T. rewrite be_val_be_bytes.
-    unfold h, b0, d_frac, two52. change (256 ^ Z.of_nat 6) with two48. change (256 ^ 6) with two48.
-    unfold two48. Z.div_mod_to_equations. lia. }
-  destruct (scratch_spec h b0 T (proj2 Hh)) as (init & mval & zs & Hdec & Hzs & Hms & Hmv).
-  rewrite <- Hms. rewrite Hdec.
-  replace (Z.to_nat (zlen init + 1)) with (S (length init)) by (unfold zlen; lia).
-  replace (Z.to_nat (zlen init)) with (length init) by (unfold zlen; lia).
-  rewrite firstn_snoc_app, nth_middle0.
-  assert (Hok : bytes_ok (init ++ mval :: zs)).
-  { rewrite <- Hdec. constructor; [unfold byte_ok; lia|exact HT]. }
+  intros Hok HlenT HM Hdec Hzs Hmv Hex.
+  rewrite Hdec in Hok.
   apply bytes_ok_app in Hok. destruct Hok as (Hinit & Hok2).
-  inversion Hok2 as [|? ? Hmvb _]; subst. unfold byte_ok in Hmvb.
+  pose proof (Forall_inv Hok2) as Hmvb. unfold byte_ok in Hmvb.
   assert (Hlen : zlen init + 1 + zlen zs = 7).
   { assert (zlen (h :: T) = zlen (init ++ mval :: zs)) by (rewrite Hdec; reflexivity).
     rewrite zlen_cons, zlen_app, zlen_cons in H. lia. }
   pose proof (zlen_nonneg init) as Hi0. pose proof (zlen_nonneg zs) as Hz0.
   set (K := be_val init * 256 + mval).
-  assert (HK : K * 2 ^ (8 * zlen zs) = two52 + d_frac d).
-  { rewrite <- HM, Hdec. rewrite be_val_app. cbn [be_val]. rewrite (be_val_zeros zs Hzs).
+  assert (HK : K * 2 ^ (8 * zlen zs) = be_val (h :: T)).
+  { rewrite Hdec. rewrite be_val_app. cbn [be_val]. rewrite (be_val_zeros zs Hzs).
     rewrite pow256_zlen_cons. rewrite <- pow256_pow2 by lia. unfold K. ring. }
   assert (HKsnoc : be_val (init ++ [mval]) = K) by apply be_val_snoc.
   assert (Hoks : bytes_ok (init ++ [mval])).
   { apply bytes_ok_app. split; [exact Hinit|]. constructor; [exact Hmvb|constructor]. }
   pose proof (be_val_bound init Hinit) as HBi.
-  assert (Hhead : exists rest', init ++ [mval] = h :: rest').
-  { destruct init as [|a init']; cbn [app] in Hdec |- *; injection Hdec as Ha _; subst; eexists; reflexivity. }
-  destruct Hhead as (rest' & Hhead).
-  assert (Hh32 : 16 <= h < 32) by (unfold h; Z.div_mod_to_equations; lia).
   assert (Hmb : negb (mval =? 0) = true) by lia. rewrite Hmb. cbn [andb].
   destruct (mval mod 2 =? 0) eqn:Epar.
   - (* even last byte: make-odd shift *)
@@ -110,56 +94,126 @@ Proof.
     pose proof (pow2_split sc Hsc) as H256.
     assert (Hs : 0 < 2 ^ sc) by (apply Z.pow_pos_nonneg; lia).
     destruct (shr_bytes_val0 sc (init ++ [mval]) Hsc Hoks) as (Hv & Hbo & Hl).
-    destruct (exp_octets_spec (128 + 64 * d_sign d)
-                (ilogb d - (8 * (zlen init + 1) - 4) + sc) ltac:(lia))
+    destruct (skip_lead_zeros_spec _ Hbo) as (Hsv & Hsok & Hsne & Hshd).
+    destruct (exp_octets_spec bm (ex0 - (8 * (zlen init + 1) - 4) + sc) ltac:(lia))
       as (eb & Heb & Hlen_eb & Hok_eb & Htw & Hmin).
-    exists eb, (shr_bytes sc 0 (init ++ [mval])), (8 * zlen zs + sc).
+    exists eb, (skip_lead_zeros (shr_bytes sc 0 (init ++ [mval]))), (8 * zlen zs + sc).
     rewrite Heb. split; [reflexivity|].
     split; [exact Hlen_eb|]. split; [exact Hok_eb|]. split; [exact Hmin|].
-    split; [rewrite Htw; lia|]. split; [exact Hbo|].
-    split. { intros C. rewrite C in Hl. rewrite app_length in Hl. simpl in Hl. lia. }
+    split; [rewrite Htw; lia|]. split; [exact Hsok|].
+    split. { apply Hsne. intros C. rewrite C in Hl. rewrite app_length in Hl. simpl in Hl. lia. }
     split; [lia|].
-    rewrite Hv, HKsnoc.
+    rewrite Hsv, Hv, HKsnoc.
     assert (HKq : K = (be_val init * 2 ^ (8 - sc) + mval / 2 ^ sc) * 2 ^ sc).
     { unfold K. rewrite H256 at 1.
       pose proof (Z.div_mod mval (2 ^ sc) ltac:(lia)) as Hdm. rewrite Hm0 in Hdm. lia. }
     assert (HKd : K / 2 ^ sc = be_val init * 2 ^ (8 - sc) + mval / 2 ^ sc).
     { rewrite HKq at 1. apply Z.div_mul. lia. }
-    split; [|split].
-    + rewrite Z.pow_add_r by lia. rewrite <- HK. rewrite HKq at 2. rewrite HKd. ring.
-    + rewrite HKd.
+    assert (Hodd : (K / 2 ^ sc) mod 2 = 1).
+    { rewrite HKd.
       replace (2 ^ (8 - sc)) with (2 ^ (7 - sc) * 2).
       2:{ replace (8 - sc) with (7 - sc + 1) by lia. rewrite Z.pow_add_r by lia. reflexivity. }
-      rewrite Z.mul_assoc, Z.add_comm, Z.mod_add by lia. exact Hm1.
-    + replace ((8 * zlen zs + sc) mod 8) with sc by (Z.div_mod_to_equations; lia).
-      rewrite Hhead. cbn [shr_bytes hd]. rewrite Z.lor_0_l.
-      assert (Hp4 : sc <= 4 -> 2 ^ sc <= 2 ^ 4) by (intros; apply Z.pow_le_mono_r; lia).
-      assert (Hp5 : 5 <= sc -> 2 ^ 5 <= 2 ^ sc) by (intros; apply Z.pow_le_mono_r; lia).
-      change (2 ^ 4) with 16 in Hp4. change (2 ^ 5) with 32 in Hp5.
-      assert (Hq : 0 <= h / 2 ^ sc < 256).
-      { split; [apply Z.div_pos; lia|]. apply Z.div_lt_upper_bound; nia. }
-      rewrite Z.mod_small by exact Hq.
-      split; intros Hx.
-      * destruct (Z.le_gt_cases sc 4) as [|Hgt]; [assumption|].
-        exfalso. apply Hx. apply Z.div_small. lia.
-      * assert (1 <= h / 2 ^ sc); [|lia].
-        apply Z.div_le_lower_bound; lia.
+      rewrite Z.mul_assoc, Z.add_comm, Z.mod_add by lia. exact Hm1. }
+    split; [|split].
+    + rewrite Z.pow_add_r by lia. rewrite <- HM, <- HK. rewrite HKq at 2. rewrite HKd. ring.
+    + exact Hodd.
+    + apply Hshd. rewrite Hv, HKsnoc. intros C. rewrite C in Hodd. discriminate Hodd.
   - (* odd last byte *)
-    destruct (exp_octets_spec (128 + 64 * d_sign d)
-                (ilogb d - (8 * (zlen init + 1) - 4)) ltac:(lia))
+    destruct (skip_lead_zeros_spec _ Hoks) as (Hsv & Hsok & Hsne & Hshd).
+    destruct (exp_octets_spec bm (ex0 - (8 * (zlen init + 1) - 4)) ltac:(lia))
       as (eb & Heb & Hlen_eb & Hok_eb & Htw & Hmin).
-    exists eb, (init ++ [mval]), (8 * zlen zs).
+    exists eb, (skip_lead_zeros (init ++ [mval])), (8 * zlen zs).
     rewrite Heb. split; [reflexivity|].
     split; [exact Hlen_eb|]. split; [exact Hok_eb|]. split; [exact Hmin|].
-    split; [rewrite Htw; lia|]. split; [exact Hoks|].
-    split. { intros C. apply app_eq_nil in C. destruct C; discriminate. }
-    split; [lia|]. rewrite HKsnoc. split; [exact HK|].
-    split.
-    + unfold K. rewrite Z.add_comm.
+    split; [rewrite Htw; lia|]. split; [exact Hsok|].
+    split. { apply Hsne. intros C. apply app_eq_nil in C. destruct C; discriminate. }
+    split; [lia|]. rewrite Hsv, HKsnoc.
+    assert (Hodd : K mod 2 = 1).
+    { unfold K. rewrite Z.add_comm.
       replace (be_val init * 256) with (be_val init * 128 * 2) by ring.
-      rewrite Z.mod_add by lia. Z.div_mod_to_equations. lia.
-    + rewrite Hhead. cbn [hd].
-      replace ((8 * zlen zs) mod 8) with 0 by (Z.div_mod_to_equations; lia). lia.
+      rewrite Z.mod_add by lia. Z.div_mod_to_equations. lia. }
+    split; [rewrite <- HM; exact HK|].
+    split; [exact Hodd|].
+    apply Hshd. rewrite HKsnoc. intros C. rewrite C in Hodd. discriminate Hodd.
+Qed.
+
+(* the integer significand and the exponent of its unit bit: a double is
+   sig_of d * 2 ^ ulp_exp d (subnormals have no hidden bit) *)
+Definition sig_of (d : Z) : Z := if d_exp d =? 0 then d_frac d else two52 + d_frac d.
+Definition ulp_exp (d : Z) : Z := if d_exp d =? 0 then -1074 else d_exp d - 1075.
+
+Lemma zeros_be_val_nz l : be_val l <> 0 -> ~ zeros l.
+Proof. intros H Hz. apply H. apply be_val_zeros. exact Hz. Qed.
+
+Lemma d2R_shape d : in64 d -> d_exp d <> 2047 -> (d_exp d <> 0 \/ d_frac d <> 0) ->
+  exists eb mant t,
+    double2REAL d = (128 + 64 * d_sign d + (zlen eb - 1)) :: eb ++ mant /\
+    1 <= zlen eb <= 3 /\ bytes_ok eb /\ minimal_twos eb = true /\
+    twos_value eb = ulp_exp d + t /\
+    bytes_ok mant /\ mant <> [] /\ 0 <= t /\
+    be_val mant * 2 ^ t = sig_of d /\ be_val mant mod 2 = 1 /\ hd 0 mant <> 0.
+Proof.
+  intros Hd He Hnz.
+  pose proof (ilogb_nonspecial d Hd He Hnz) as Hil.
+  destruct (d_fields d Hd) as (Hs & Hexp & Hf & Hmk).
+  unfold double2REAL. cbv zeta.
+  replace ((ilogb d <=? - INT_MAX) || (ilogb d =? INT_MAX)) with false by (unfold INT_MAX; lia).
+  rewrite (be_bytes_S 6 d). cbn [set_lead].
+  set (b0 := (d / 256 ^ Z.of_nat 6) mod 256).
+  set (T := be_bytes 6 d).
+  assert (Hb0 : 0 <= b0 < 256) by (apply Z.mod_pos_bound; lia).
+  assert (HT : bytes_ok T) by apply be_bytes_ok.
+  assert (HlenT : zlen T = 6) by apply (zlen_be_bytes 6 d).
+  unfold sig_of, ulp_exp, DBL_MIN_EXP.
+  destruct (d_exp d =? 0) eqn:E0.
+  - (* subnormal: the pad holds the fraction *)
+    assert (Hf0 : d_frac d <> 0) by lia.
+    assert (Hilog : ilogb d = Z.log2 (d_frac d) - 1074).
+    { unfold ilogb. replace (d_exp d =? 2047) with false by lia. rewrite E0.
+      replace (d_frac d =? 0) with false by lia. reflexivity. }
+    pose proof (log2_frac (d_frac d) ltac:(lia)) as Hlg.
+    replace (ilogb d <? -1021 - 1) with true by lia.
+    assert (Hb16 : b0 mod 16 = b0).
+    { unfold b0. change (256 ^ Z.of_nat 6) with two48.
+      unfold d_exp, d_frac, two52, two48 in *. Z.div_mod_to_equations. lia. }
+    rewrite Hb16.
+    assert (HM : be_val (b0 :: T) = d_frac d).
+    { cbn [be_val]. rewrite HlenT. unfold T. rewrite be_val_be_bytes.
+      unfold b0. change (256 ^ Z.of_nat 6) with two48. change (256 ^ 6) with two48.
+      unfold d_exp, d_frac, two52, two48 in *. Z.div_mod_to_equations. lia. }
+    assert (Hok : bytes_ok (b0 :: T)) by (constructor; [unfold byte_ok; lia|exact HT]).
+    destruct (scratch_spec_nz b0 T (zeros_be_val_nz _ ltac:(rewrite HM; exact Hf0)))
+      as (init & mval & zs & Hdec & Hzs & Hms & Hmv).
+    rewrite <- Hms. rewrite Hdec.
+    replace (Z.to_nat (zlen init + 1)) with (S (length init)) by (unfold zlen; lia).
+    replace (Z.to_nat (zlen init)) with (length init) by (unfold zlen; lia).
+    rewrite firstn_snoc_app, nth_middle0.
+    destruct (d2R_core (128 + 64 * d_sign d) (-1021 - 1) b0 T init mval zs (d_frac d)
+                Hok HlenT HM Hdec Hzs Hmv ltac:(lia))
+      as (eb & mant & t & Henc & H1 & H2 & H3 & Htw & H5 & H6 & H7 & H8 & H9 & H10).
+    exists eb, mant, t. rewrite Henc.
+    repeat split; try assumption; try lia.
+  - (* normal: hidden bit set *)
+    assert (Hilog : ilogb d = d_exp d - 1023).
+    { unfold ilogb. replace (d_exp d =? 2047) with false by lia. rewrite E0. reflexivity. }
+    replace (ilogb d <? -1021 - 1) with false by lia.
+    set (h := 16 + b0 mod 16).
+    assert (Hh : 0 <= h < 256 /\ h <> 0) by (unfold h; Z.div_mod_to_equations; lia).
+    assert (HM : be_val (h :: T) = two52 + d_frac d).
+    { cbn [be_val]. rewrite HlenT. unfold T. rewrite be_val_be_bytes.
+      unfold h, b0, d_frac, two52. change (256 ^ Z.of_nat 6) with two48. change (256 ^ 6) with two48.
+      unfold two48. Z.div_mod_to_equations. lia. }
+    assert (Hok : bytes_ok (h :: T)) by (constructor; [unfold byte_ok; lia|exact HT]).
+    destruct (scratch_spec h b0 T (proj2 Hh)) as (init & mval & zs & Hdec & Hzs & Hms & Hmv).
+    rewrite <- Hms. rewrite Hdec.
+    replace (Z.to_nat (zlen init + 1)) with (S (length init)) by (unfold zlen; lia).
+    replace (Z.to_nat (zlen init)) with (length init) by (unfold zlen; lia).
+    rewrite firstn_snoc_app, nth_middle0.
+    destruct (d2R_core (128 + 64 * d_sign d) (ilogb d) h T init mval zs (two52 + d_frac d)
+                Hok HlenT HM Hdec Hzs Hmv ltac:(lia))
+      as (eb & mant & t & Henc & H1 & H2 & H3 & Htw & H5 & H6 & H7 & H8 & H9 & H10).
+    exists eb, mant, t. rewrite Henc.
+    repeat split; try assumption; try lia.
 Qed.
 
 (* ================================================================ *)
@@ -265,16 +319,35 @@ Qed.
 
 Lemma ldexp_bits_exact N t e f :
   1 <= e <= 2046 -> 0 <= f < two52 -> 0 <= t -> N * 2 ^ t = two52 + f ->
-  ldexp_bits N (e - 1023 - 52 + t) = Some (e * two52 + f).
+  ldexp_bits N (e - 1075 + t) = Some (e * two52 + f).
 Proof.
   intros He Hf Ht HN.
   destruct (triple_log2 N t f Hf Ht HN) as (Ht52 & HNr & Hlog).
   unfold ldexp_bits. cbv zeta. rewrite Hlog.
   replace (N =? 0) with false by lia.
-  replace (1024 <=? 52 - t + (e - 1023 - 52 + t)) with false by lia.
-  replace (-1022 <=? 52 - t + (e - 1023 - 52 + t)) with true by lia.
+  replace (1024 <=? 52 - t + (e - 1075 + t)) with false by lia.
+  replace (-1022 <=? 52 - t + (e - 1075 + t)) with true by lia.
   replace (52 - t <=? 52) with true by lia.
   replace (52 - (52 - t)) with t by lia. rewrite HN. f_equal. lia.
+Qed.
+
+(* a subnormal result that is representable is exact: N * 2^t = f < 2^52 at
+   exponent -1074 + t gives the pattern f *)
+Lemma ldexp_bits_subnormal N t f :
+  0 < f < two52 -> 0 <= t -> N * 2 ^ t = f ->
+  ldexp_bits N (-1074 + t) = Some f.
+Proof.
+  intros Hf Ht HN. pose proof (pow2_pos t Ht) as HP.
+  assert (HNpos : 0 < N) by nia.
+  assert (Hlog : Z.log2 f = t + Z.log2 N) by (rewrite <- HN; apply Z.log2_mul_pow2; lia).
+  pose proof (log2_frac f Hf) as Hlf. pose proof (Z.log2_nonneg N) as HlN.
+  unfold ldexp_bits. cbv zeta.
+  replace (N =? 0) with false by lia.
+  replace (1024 <=? Z.log2 N + (-1074 + t)) with false by lia.
+  replace (-1022 <=? Z.log2 N + (-1074 + t)) with false by lia.
+  replace (Z.log2 N + (-1074 + t) <? -1075) with false by lia.
+  replace (-1074 + t + 1074) with t by lia.
+  replace (0 <=? t) with true by lia. rewrite HN. reflexivity.
 Qed.
 
 (* ================================================================ *)
@@ -283,25 +356,44 @@ Qed.
 Definition normal (d : Z) : Prop := in64 d /\ 1 <= d_exp d <= 2046.
 Definition subnormal (d : Z) : Prop := in64 d /\ d_exp d = 0 /\ d_frac d <> 0.
 
-Lemma ilogb_normal d : 1 <= d_exp d <= 2046 -> ilogb d = d_exp d - 1023.
-Proof.
-  intros H. unfold ilogb.
-  replace (d_exp d =? 2047) with false by lia. replace (d_exp d =? 0) with false by lia.
-  reflexivity.
-Qed.
+Lemma sig_normal d : 1 <= d_exp d <= 2046 ->
+  sig_of d = two52 + d_frac d /\ ulp_exp d = d_exp d - 1075.
+Proof. intros H. unfold sig_of, ulp_exp. replace (d_exp d =? 0) with false by lia. split; reflexivity. Qed.
+
+Lemma sig_subnormal d : d_exp d = 0 -> sig_of d = d_frac d /\ ulp_exp d = -1074.
+Proof. intros H. unfold sig_of, ulp_exp. rewrite H. split; reflexivity. Qed.
 
 (* (a) every normal double comes back bit for bit *)
 Theorem real_roundtrip_normal d : normal d -> REAL2double (double2REAL d) = ROk d.
 Proof.
   intros (Hd & He).
   destruct (d_fields d Hd) as (Hs & _ & Hf & Hmk).
+  destruct (sig_normal d He) as (Hsig & Hulp).
   destruct (d2R_shape d Hd ltac:(lia) ltac:(lia))
     as (eb & mant & t & Henc & Hlen & Hok_eb & _ & Htw & Hok_m & _ & Ht & HN & _).
+  rewrite Hsig in HN. rewrite Hulp in Htw.
   destruct (triple_log2 _ t _ Hf Ht HN) as (_ & HNr & _).
   rewrite Henc, R2d_binary by (try assumption; lia).
-  rewrite Htw, ilogb_normal by exact He.
+  rewrite Htw.
   rewrite (ldexp_bits_exact _ t (d_exp d) (d_frac d)) by assumption.
   f_equal. rewrite Hmk at 4. unfold mk_double. ring.
+Qed.
+
+(* ... and so does every subnormal one *)
+Theorem real_roundtrip_subnormal d : subnormal d -> REAL2double (double2REAL d) = ROk d.
+Proof.
+  intros (Hd & He & Hf0).
+  destruct (d_fields d Hd) as (Hs & _ & Hf & Hmk).
+  destruct (sig_subnormal d He) as (Hsig & Hulp).
+  destruct (d2R_shape d Hd ltac:(lia) ltac:(lia))
+    as (eb & mant & t & Henc & Hlen & Hok_eb & _ & Htw & Hok_m & _ & Ht & HN & _).
+  rewrite Hsig in HN. rewrite Hulp in Htw.
+  pose proof (pow2_pos t Ht) as HP.
+  assert (HNr : be_val mant < two53) by (unfold two52, two53 in *; nia).
+  rewrite Henc, R2d_binary by (try assumption; lia).
+  rewrite Htw.
+  rewrite (ldexp_bits_subnormal _ t (d_frac d)) by (try assumption; lia).
+  f_equal. rewrite Hmk at 3. rewrite He. unfold mk_double. ring.
 Qed.
 
 (* zeros and infinities of both signs: closed terms *)
@@ -328,11 +420,11 @@ Proof.
   split; [exact H|]. rewrite H. reflexivity.
 Qed.
 
-(* the whole domain except the subnormals *)
-Theorem real_roundtrip_partial d : in64 d -> ~ subnormal d ->
+(* the whole domain: all 2^64 bit patterns *)
+Theorem real_roundtrip d : in64 d ->
   REAL2double (double2REAL d) = if is_nan d then RNaN else ROk d.
 Proof.
-  intros Hd Hns.
+  intros Hd.
   destruct (d_fields d Hd) as (Hs & He & Hf & Hmk).
   destruct real_roundtrip_specials as (Z0 & Z1 & I0 & I1 & _).
   destruct (Z.eq_dec (d_exp d) 2047) as [E2047|NE2047].
@@ -345,25 +437,12 @@ Proof.
       rewrite Hn. exact (proj2 (real_roundtrip_nan d Hd Hn)).
   - replace (is_nan d) with false by (unfold is_nan; lia).
     destruct (Z.eq_dec (d_exp d) 0) as [E0|NE0].
-    + assert (F0 : d_frac d = 0).
-      { destruct (Z.eq_dec (d_frac d) 0); [assumption|]. exfalso. apply Hns. repeat split; auto; apply Hd. }
-      rewrite Hmk, E0, F0.
-      assert (Hs2 : d_sign d = 0 \/ d_sign d = 1) by lia.
-      destruct Hs2 as [-> | ->]; assumption.
+    + destruct (Z.eq_dec (d_frac d) 0) as [F0|NF0].
+      * rewrite Hmk, E0, F0.
+        assert (Hs2 : d_sign d = 0 \/ d_sign d = 1) by lia.
+        destruct Hs2 as [-> | ->]; assumption.
+      * apply real_roundtrip_subnormal. repeat split; auto; apply Hd.
     + apply real_roundtrip_normal. split; [exact Hd|lia].
-Qed.
-
-(* (d) the full statement is false: 2^-1023 is stored as 81 fc 00 03 and comes
-   back as 1.5 * 2^-1023 *)
-Definition subnormal_witness : Z := 2251799813685248.   (* 0x0008000000000000 *)
-Theorem real_roundtrip_refuted :
-  exists d, in64 d /\ is_nan d = false /\ subnormal d /\
-            double2REAL d = [129; 252; 0; 3] /\
-            REAL2double (double2REAL d) = ROk 3377699720527872 /\
-            REAL2double (double2REAL d) <> ROk d.
-Proof.
-  exists subnormal_witness. vm_compute.
-  repeat split; try reflexivity; try discriminate.
 Qed.
 
 (* ---------------------------------------------------------------- *)
@@ -398,38 +477,23 @@ Proof.
   destruct bs as [|b [|c l]]; unfold zlen; simpl length; intros H; try lia. reflexivity.
 Qed.
 
-Lemma der_real_form_weak_long bs : 2 <= zlen bs ->
-  der_real_form_weak bs =
-  match split_binary bs with
-  | None => false
-  | Some (b, ex, mn) =>
-      ((b / 4) mod 16 =? 0) && minimal_twos ex &&
-      match mn with
-      | [] => false
-      | _ :: _ => last_byte mn mod 2 =? 1
-      end
-  end.
-Proof.
-  destruct bs as [|b [|c l]]; unfold zlen; simpl length; intros H; try lia. reflexivity.
-Qed.
-
 Lemma der_shape s eb mant :
   0 <= s <= 1 -> 1 <= zlen eb <= 3 -> minimal_twos eb = true ->
-  mant <> [] -> be_val mant mod 2 = 1 ->
-  let bs := (128 + 64 * s + (zlen eb - 1)) :: eb ++ mant in
-  der_real_form_weak bs = true /\ der_real_form bs = negb (hd 0 mant =? 0).
+  mant <> [] -> be_val mant mod 2 = 1 -> hd 0 mant <> 0 ->
+  der_real_form ((128 + 64 * s + (zlen eb - 1)) :: eb ++ mant) = true.
 Proof.
-  intros Hs Hlen Hmin Hne Hodd bs.
+  intros Hs Hlen Hmin Hne Hodd Hhd.
+  set (bs := (128 + 64 * s + (zlen eb - 1)) :: eb ++ mant).
   assert (H2 : 2 <= zlen bs).
   { unfold bs. rewrite zlen_cons, zlen_app. pose proof (zlen_nonneg mant). lia. }
-  rewrite der_real_form_long, der_real_form_weak_long by exact H2.
+  rewrite der_real_form_long by exact H2.
   unfold bs. rewrite split_binary_shape by assumption. rewrite Hmin.
   replace ((128 + 64 * s + (zlen eb - 1)) / 4 mod 16 =? 0) with true
     by (Z.div_mod_to_equations; lia).
   rewrite be_val_last_mod2 in Hodd by exact Hne. fold (last_byte mant) in Hodd.
-  destruct mant as [|m0 tl]; [congruence|]. cbn [hd andb].
+  destruct mant as [|m0 tl]; [congruence|]. cbn [hd andb] in *.
   replace (last_byte (m0 :: tl) mod 2 =? 1) with true by lia.
-  split; [reflexivity|]. now rewrite andb_true_r.
+  replace (m0 =? 0) with false by lia. reflexivity.
 Qed.
 
 Lemma real_value_shape s eb mant : 0 <= s <= 1 -> 1 <= zlen eb <= 3 ->
@@ -444,10 +508,9 @@ Proof.
   cbn [Z.eqb]. rewrite Z.mul_1_r, Z.add_0_r. reflexivity.
 Qed.
 
-(* the provable part of "stored octets are the DER form", for EVERY bit
-   pattern (subnormals included): everything except "no leading zero mantissa
-   octet" *)
-Theorem real_der_form_partial d : in64 d -> der_real_form_weak (double2REAL d) = true.
+(* "stored octets are the DER form" (X.690 8.5 + 11.3, the fewest mantissa
+   octets included), for EVERY bit pattern *)
+Theorem real_der_form d : in64 d -> der_real_form (double2REAL d) = true.
 Proof.
   intros Hd.
   destruct (d_fields d Hd) as (Hs & He & Hf & Hmk).
@@ -465,55 +528,11 @@ Proof.
       destruct Hs2 as [-> | ->];
         [rewrite (Z0 : double2REAL (mk_double 0 0 0) = [])|rewrite (Z1 : double2REAL (mk_double 1 0 0) = [67])]; reflexivity.
     + destruct (d2R_shape d Hd NE2047 ltac:(lia))
-        as (eb & mant & t & Henc & Hlen & _ & Hmin & _ & _ & Hne & _ & _ & Hodd & _).
+        as (eb & mant & t & Henc & Hlen & _ & Hmin & _ & _ & Hne & _ & _ & Hodd & Hhd).
       rewrite Henc. apply der_shape; assumption.
     + destruct (d2R_shape d Hd NE2047 ltac:(lia))
-        as (eb & mant & t & Henc & Hlen & _ & Hmin & _ & _ & Hne & _ & _ & Hodd & _).
+        as (eb & mant & t & Henc & Hlen & _ & Hmin & _ & _ & Hne & _ & _ & Hodd & Hhd).
       rewrite Henc. apply der_shape; assumption.
-Qed.
-
-(* the full DER statement is false of the code: 1.0078125 = 0x3ff0200000000000
-   is stored as 80 f9 00 81, with a leading zero mantissa octet *)
-Definition leadzero_witness : Z := 4607217603172106240.   (* 0x3ff0200000000000 *)
-Theorem real_der_form_refuted :
-  exists d, normal d /\ double2REAL d = [128; 249; 0; 129] /\
-            der_real_form (double2REAL d) = false.
-Proof.
-  exists leadzero_witness. unfold normal, in64. vm_compute.
-  repeat split; try reflexivity; try discriminate.
-Qed.
-
-Lemma odd_part_unique N t N' t' : 0 <= t -> 0 <= t' ->
-  N mod 2 = 1 -> N' mod 2 = 1 -> N * 2 ^ t = N' * 2 ^ t' -> t = t'.
-Proof.
-  assert (Hlt : forall A a B b, 0 <= a -> a < b -> A mod 2 = 1 -> A * 2 ^ a = B * 2 ^ b -> False).
-  { intros A a B b Ha Hab HA Heq.
-    replace b with (a + (b - a - 1) + 1) in Heq by lia.
-    rewrite !Z.pow_add_r in Heq by lia. change (2 ^ 1) with 2 in Heq.
-    pose proof (pow2_pos a Ha) as HP.
-    assert (HAe : A = B * 2 ^ (b - a - 1) * 2) by nia.
-    rewrite HAe, Z.mod_mul in HA by lia. lia. }
-  intros Ht Ht' HN HN' Heq.
-  destruct (Z.lt_trichotomy t t') as [H|[H|H]]; [exfalso|exact H|exfalso].
-  - exact (Hlt N t N' t' Ht H HN Heq).
-  - exact (Hlt N' t' N t Ht' H HN' (eq_sym Heq)).
-Qed.
-
-(* exactly which non-special doubles get the leading zero octet: those whose
-   significand 2^52+f has a number of trailing zero bits that is 5, 6 or 7
-   modulo 8 (the make-odd shift then empties the first kept byte 0x1X) *)
-Theorem real_der_form_iff d N t : in64 d -> d_exp d <> 2047 -> (d_exp d <> 0 \/ d_frac d <> 0) ->
-  0 <= t -> N mod 2 = 1 -> N * 2 ^ t = two52 + d_frac d ->
-  (der_real_form (double2REAL d) = true <-> t mod 8 <= 4).
-Proof.
-  intros Hd He Hnz Ht HN Heq.
-  destruct (d_fields d Hd) as (Hs & _ & _ & _).
-  destruct (d2R_shape d Hd He Hnz)
-    as (eb & mant & t' & Henc & Hlen & _ & Hmin & _ & _ & Hne & Ht' & Heq' & Hodd & Hhd).
-  assert (t' = t) by (apply (odd_part_unique (be_val mant) t' N t); try assumption; lia).
-  subst t'. rewrite Henc.
-  rewrite (proj2 (der_shape (d_sign d) eb mant Hs Hlen Hmin Hne Hodd)).
-  rewrite <- Hhd. split; intros H; lia.
 Qed.
 
 (* (c) the written triple denotes exactly the double: N * 2^E = (2^52+f) * 2^(e-1075),
@@ -525,47 +544,43 @@ Theorem real_value_exact d : normal d ->
 Proof.
   intros (Hd & He).
   destruct (d_fields d Hd) as (Hs & _ & _ & _).
+  destruct (sig_normal d He) as (Hsig & Hulp).
   destruct (d2R_shape d Hd ltac:(lia) ltac:(lia))
     as (eb & mant & t & Henc & Hlen & _ & _ & Htw & _ & _ & Ht & HN & Hodd & _).
+  rewrite Hsig in HN. rewrite Hulp in Htw.
   exists (be_val mant), (twos_value eb).
   rewrite Henc, real_value_shape by assumption.
-  rewrite Htw, ilogb_normal by exact He.
+  rewrite Htw.
   split; [reflexivity|]. split; [lia|]. split; [exact Hodd|].
-  replace (d_exp d - 1023 - 52 + t - (d_exp d - 1075)) with t by lia. exact HN.
+  replace (d_exp d - 1075 + t - (d_exp d - 1075)) with t by lia. exact HN.
 Qed.
 
-(* what is written for a subnormal: the significand gets the hidden bit it does
-   not have, i.e. the octets denote (2^52+f) * 2^(log2 f - 1126), not f * 2^-1074 *)
-Theorem real_value_subnormal_actual d : subnormal d ->
+(* subnormals: N * 2^E = f * 2^-1074 (no hidden bit), N odd *)
+Theorem real_value_exact_subnormal d : subnormal d ->
   exists N E, real_value (double2REAL d) = Some (d_sign d, N, E) /\
-              Z.log2 (d_frac d) - 1126 <= E /\ N mod 2 = 1 /\
-              N * 2 ^ (E - (Z.log2 (d_frac d) - 1126)) = two52 + d_frac d.
+              -1074 <= E /\ N mod 2 = 1 /\
+              N * 2 ^ (E + 1074) = d_frac d.
 Proof.
   intros (Hd & He & Hf).
   destruct (d_fields d Hd) as (Hs & _ & _ & _).
+  destruct (sig_subnormal d He) as (Hsig & Hulp).
   destruct (d2R_shape d Hd ltac:(lia) ltac:(lia))
     as (eb & mant & t & Henc & Hlen & _ & _ & Htw & _ & _ & Ht & HN & Hodd & _).
+  rewrite Hsig in HN. rewrite Hulp in Htw.
   exists (be_val mant), (twos_value eb).
   rewrite Henc, real_value_shape by assumption.
-  rewrite Htw. unfold ilogb. rewrite He.
-  replace (d_frac d =? 0) with false by lia. cbn [Z.eqb].
+  rewrite Htw.
   split; [reflexivity|]. split; [lia|]. split; [exact Hodd|].
-  replace (Z.log2 (d_frac d) - 1074 - 52 + t - (Z.log2 (d_frac d) - 1126)) with t by lia. exact HN.
-Qed.
-
-(* the full "denotes exactly d" statement is false on subnormals: for 2^-1023
-   (f = 2^51, value f * 2^-1074) the octets denote 3 * 2^-1024 *)
-Theorem real_value_exact_refuted :
-  exists d, subnormal d /\
-            real_value (double2REAL d) = Some (0, 3, -1024) /\
-            3 * 2 ^ (-1024 + 1074) <> d_frac d.
-Proof.
-  exists subnormal_witness. unfold subnormal, in64. vm_compute.
-  repeat split; try reflexivity; try discriminate.
+  replace (-1074 + t + 1074) with t by lia. exact HN.
 Qed.
 
 (* ---------------------------------------------------------------- *)
-(* non-vacuity: concrete instances of the hypotheses                 *)
+(* non-vacuity: concrete instances of the hypotheses; the two former defect
+   witnesses (2^-1023, stored 81 fc 00 03 before the repair, and 1.0078125,
+   stored 80 f9 00 81) with what is stored now *)
+
+Definition subnormal_witness : Z := 2251799813685248.   (* 0x0008000000000000 = 2^-1023 *)
+Definition leadzero_witness : Z := 4607217603172106240.   (* 0x3ff0200000000000 = 1.0078125 *)
 
 Example normal_one : normal 4607182418800017408 /\ double2REAL 4607182418800017408 = [128; 0; 1].
 Proof. unfold normal, in64. vm_compute. repeat split; try reflexivity; discriminate. Qed.
@@ -577,10 +592,14 @@ Proof. unfold normal, in64. vm_compute. repeat split; try reflexivity; discrimin
 Example nan_instance : in64 18442240474082181121 /\ is_nan 18442240474082181121 = true.
 Proof. unfold in64. vm_compute. repeat split; try reflexivity; discriminate. Qed.
 
-Example subnormal_instance : subnormal subnormal_witness /\ subnormal 1.
+Example subnormal_instance : subnormal subnormal_witness /\ subnormal 1 /\
+  double2REAL subnormal_witness = [129; 252; 1; 1] /\
+  REAL2double [129; 252; 1; 1] = ROk subnormal_witness /\
+  double2REAL 1 = [129; 251; 206; 1] /\
+  double2REAL (two52 - 1) = [129; 251; 206; 15; 255; 255; 255; 255; 255; 255].
 Proof. unfold subnormal, in64. vm_compute. repeat split; try reflexivity; discriminate. Qed.
 
-(* the leading-zero witness in the terms of real_der_form_iff: 2^52+f = 129 * 2^45 *)
-Example der_iff_instance :
-  129 mod 2 = 1 /\ 129 * 2 ^ 45 = two52 + d_frac leadzero_witness /\ 45 mod 8 = 5.
-Proof. vm_compute. repeat split; reflexivity. Qed.
+Example leadzero_instance : normal leadzero_witness /\
+  double2REAL leadzero_witness = [128; 249; 129] /\
+  double2REAL 4643176031446892544 = [128; 0; 255].     (* 255.0 *)
+Proof. unfold normal, in64. vm_compute. repeat split; try reflexivity; discriminate. Qed.
